@@ -48,7 +48,36 @@ def instances(build, tier, seed):
     for i in c07.data_instances('quick', fam='safe.data', safety=True):
         if len(i.bound['initializers']) == 1 or i.bound['initializers'] in ('wB', 'Bw', 'BB', 'lH'):
             L.append(i)
+    for i in c07.datastr_instances('quick', fam='safe.datastr', safety=True):
+        if 'ovr' in i.name:
+            L.append(i)
     L.append(Inst('safe.subobj', 'h_subobj.c', {}, units=['type'], unwind=4, family='safe.subobj', safety=True, timeout=300,
                   native_units=['util', 'token', 'expr', 'eval', 'decl', 'map', 'scope', 'targ', 'attr', 'stmt', 'utf', 'scan', 'pp', 'qbe', 'tree'],
                   bound={'designator stack depth': 'symbolic 0..31'}))
+    # parser-level robustness: unusual but syntactically possible inputs that must end in output or a diagnostic, never in a failed
+    # internal assertion or an invalid access (every source assert() is a proof obligation under CBMC)
+    import parselib
+    for nm, src, err in ROBUST:
+        i = parselib.parse_inst('safe.parse.' + nm, src, err, 'safe.parse', unwind=70, timeout=300)
+        i.bound = {'skeleton': src, 'expected': 'diagnostic' if err else 'accepted'}
+        L.append(i)
     return L
+
+
+ROBUST = [
+    ('qualified-function-param', 'typedef void F(void); void g(F const f);', False),
+    ('qualified-function-param-2', 'typedef int F(int); int g(volatile F f, const F h) { return f(1) + h(2); }', False),
+    ('zero-length-local', 'int f(void) { int z[0]; return sizeof z; }', False),
+    ('zero-length-member', 'void g(void) { struct { int n; int d[0]; } v = {1}; }', False),
+    ('excess-scalar-static', 'void f(void) { static int x = {1, 2}; }', True),
+    ('excess-string-brace', 'char s[] = {"a", "b"};', True),
+    ('flexible-init', 'struct s { int n; int d[]; }; struct s x = {.d[1] = 2};', True),
+    ('string-tail-override', 'struct { char s[8]; } x = {.s = "ab", .s[5] = 1};', False),
+    ('empty-nested', 'int x[2][2] = {{}, 7}; int y[] = {{}}; int z = {};', False),
+    ('union-overlap', 'union { int a; char b; } u = {.a = 1, .b = 2};', False),
+    ('unnamed-param-body', 'int f(int) { return 0; }', False),
+    ('array-param-qual', 'void g(int a[const 2]) { }', False),
+    ('func-returning-array', 'typedef int A[2]; A f(void);', True),
+    ('enum-empty-fwd', 'enum e; enum e { A };', False),
+    ('self-ref-sizeof', 'struct s { int a[sizeof(struct s *)]; };', False),
+]
